@@ -607,6 +607,11 @@ func main() {
 		registered = []string{"OCRA-1:HOTP-SHA1-6:QN08"}
 	}
 	r := &rng{s: *seed}
+	aged := &http.Client{Timeout: 8 * time.Second, Transport: &http.Transport{MaxIdleConnsPerHost: 1}, CheckRedirect: func(*http.Request, []*http.Request) error { return http.ErrUseLastResponse }}
+	agedSecret := strings.TrimSpace(genSecret(r))
+	agedAt := time.Now()
+	agedFirst := request{method: "POST", path: "/totp/generate", body: jsonObj(map[string]any{"secret": agedSecret, "period": 1}), probe: true}
+	agedFirstRes := send(aged, base, agedFirst)
 	var reqs []request
 	for i := 0; i < *n; i++ {
 		if *prop == "C19" && i%5 != 4 {
@@ -638,6 +643,44 @@ func main() {
 		}(w)
 	}
 	wg.Wait()
+	// large answers under concurrency: 16 keep-alive clients, each asking for the provisioning URL of its own long issuer
+	// and account (answers of 3-6 KiB); an answer assembled from anything shared between requests shows up as another
+	// client's URL, a splice of two, or unparsable JSON
+	{
+		per := 12
+		if *n >= 3000 {
+			per = 120
+		}
+		nb := len(reqs)
+		for w := 0; w < 16; w++ {
+			for j := 0; j < per; j++ {
+				long := func(tag string, k int) string {
+					var sb strings.Builder
+					for sb.Len() < k {
+						fmt.Fprintf(&sb, "%s%d.%d-", tag, w, j)
+					}
+					return sb.String()
+				}
+				u := map[string]any{"type": pick(r, []string{"totp", "hotp"}), "secret": strings.TrimSpace(genSecret(r)),
+					"issuer": long("iss", 900+r.intn(1400)), "account_name": long("acct", 900+r.intn(1400))}
+				reqs = append(reqs, request{method: "POST", path: "/otp/url", body: jsonObj(u), probe: true})
+			}
+		}
+		results = append(results, make([]result, len(reqs)-nb)...)
+		for w := 0; w < 16; w++ {
+			wg.Add(1)
+			go func(w int) {
+				defer wg.Done()
+				c := &http.Client{Timeout: 8 * time.Second, Transport: &http.Transport{}, CheckRedirect: func(*http.Request, []*http.Request) error { return http.ErrUseLastResponse }}
+				for j := 0; j < per; j++ {
+					i := nb + w*per + j
+					results[i] = send(c, base, reqs[i])
+				}
+				c.CloseIdleConnections()
+			}(w)
+		}
+		wg.Wait()
+	}
 	// generate -> validate chains: the code one endpoint returns must validate at the matching endpoint
 	chains := 0
 	for i := 0; i < len(reqs) && chains < 60; i++ {
@@ -710,6 +753,27 @@ func main() {
 		}
 		chains++
 	}
+	// aged connection: the dedicated keep-alive connection opened before the first phase has by now been open for a
+	// while; requests that leave the instant to the server must be answered for the instant of the request, not for
+	// anything remembered from when the connection (or an earlier request on it) arrived
+	if d := 2300*time.Millisecond - time.Since(agedAt); d > 0 {
+		time.Sleep(d)
+	}
+	for k := 0; k < 6; k++ {
+		f := map[string]any{"secret": agedSecret, "period": 1 + k%3}
+		if k >= 3 {
+			f["timestamp"] = pick(r, []int64{0, -1, -1 << 40})
+		}
+		rq := request{method: "POST", path: "/totp/generate", body: jsonObj(f), probe: true}
+		reqs = append(reqs, rq)
+		results = append(results, send(aged, base, rq))
+		if k == 2 {
+			time.Sleep(1100 * time.Millisecond)
+		}
+	}
+	reqs = append(reqs, agedFirst)
+	results = append(results, agedFirstRes)
+	aged.CloseIdleConnections()
 	alive := send(fresh(), base, request{method: "GET", path: "/"}).status == 200
 
 	// model answers; requests that make the server read its clock (no positive timestamp on /totp/*) are
@@ -791,7 +855,7 @@ func main() {
 	}
 	out := map[string]any{
 		"coverage": map[string]any{"requests": len(reqs), "compared_with_model": compared, "distinct_requests": len(distinct), "status_histogram": statuses, "endpoint_histogram": endpoints,
-			"max_latency_ms": maxLat.Milliseconds(), "phases": "sequential keep-alive / fresh connections / 8 concurrent clients", "alive_at_end": alive, "generate_validate_chains": chains, "samples": samples},
+			"max_latency_ms": maxLat.Milliseconds(), "phases": "sequential keep-alive / fresh connections / 8 concurrent clients / 16 concurrent clients with 3-6 KiB answers / clock-reading requests on a connection aged >= 2.3 s", "alive_at_end": alive, "generate_validate_chains": chains, "samples": samples},
 		"violations": viol,
 	}
 	json.NewEncoder(os.Stdout).Encode(out)
